@@ -134,7 +134,15 @@ def reproducibility(dim, k, g):
     # constructing other functions in between must not change (n, k): another member, and the function with the
     # same dimension and number from the generator's other difficulty class (built through the public
     # GKLSFunction interface, the way GKLS.__init__ does it for the simple class)
-    bench.construct("gkls", (2 + (dim + k) % 4, 1 + (7 * k) % 100))
+    keep = [bench.construct("gkls", (2 + (dim + k) % 4, 1 + (7 * k) % 100)),
+            bench.construct("gkls", (dim, 1 + k % 100))]
+    Mk, fk, rhok = tables(g)
+    if not (np.array_equal(M, Mk) and np.array_equal(f, fk) and np.array_equal(rho, rhok)):
+        fail(who + "constructing other GKLS functions changed the tables of this, already existing one")
+    for i in (1, 2, 5):
+        if bench.real_eval(g, M[i]) != f[i]:
+            fail(who + "after other GKLS functions were constructed the value at minimiser %d is %r, prescribed %r" %
+                 (i, bench.real_eval(g, M[i]), f[i]))
     hard_class_function(dim, k)
     g2 = bench.construct("gkls", (dim, k))
     M2, f2, rho2 = tables(g2)
